@@ -180,7 +180,7 @@ fn inline_case(kind: InlineKind, items: &[Lane], st: &mut Stats) {
 }
 
 fn hook_level(thorough: bool) -> Stats {
-    let max_items = if thorough { 4 } else { 3 };
+    let max_items = if thorough { 5 } else { 4 };
     let max_ticks = 3;
     let mut cases: Vec<(Kind, Vec<Lane>, usize, bool)> = vec![];
     for kind in ALL_KINDS {
@@ -423,7 +423,7 @@ pub fn run(rep: &mut Report) {
         .into();
     rep.assume("a release inside an unordered batch is identified up to in-batch order (what the min_index pruning claims is redundant); TopLevelFoldHook batches keep their order (the fold observes it)");
     rep.assume("trusted base: reference enumeration `legal_releases` / `expected_outcomes` written from the operator semantics");
-    rep.bound("hook_queue_items", if thorough { 4 } else { 3 });
+    rep.bound("hook_queue_items", if thorough { 5 } else { 4 });
     rep.bound("hook_ticks", 3);
     rep.bound("keys", 2);
     let t = std::time::Instant::now();
@@ -435,7 +435,10 @@ pub fn run(rep: &mut Report) {
     let mut names: Vec<(&str, bool)> = C37_PROGRAMS.iter().map(|n| (*n, true)).collect();
     names.extend(C37_DFS_ONLY.iter().map(|n| (*n, false)));
     let specs: Vec<Value> = names.iter().map(|(n, w)| json!({"program": n, "n": prog_n(n, thorough), "with_expected": w})).collect();
-    let (s, lines) = crate::jobs::run_programs("c37prog", &specs, "C37/prog");
+    let (mut s, lines) = if crate::jobs::skip_programs() { (Stats::new(), vec![]) } else { crate::jobs::run_programs("c37prog", &specs, "C37/prog") };
+    if crate::jobs::skip_programs() {
+        s.cap("program level skipped on request (VF_SIM1_SKIP_PROGRAMS)");
+    }
     for l in lines {
         println!("{l}");
     }
